@@ -169,9 +169,35 @@ def _twin(rng, spec):
     return t if _valid_spec(t) else None
 
 
-def gen_program(rng, kinds, max_tasks=2, max_ops=40, nmax=24, float_mode="x64"):
+def _with_rar_config(rng, spec):
+    """The generator is configured for refinement (pre-allocated store larger than the initial point set)
+    but no refinement step ever runs here: only get_batch is called.  Every stored point, live or not,
+    must already be a point of the domain."""
+    k = spec["kind"]
+    rp = {"start_iter": 10**6, "update_every": 1}
+    cfg = {}
+    if k in ("ode", "nonstatio") and spec["nt"] > 1:
+        cfg["nt_start"] = rng.randint(1, spec["nt"] - 1)
+        rp.update(sample_size_times=3, selected_sample_size_times=1)
+    if k in ("statio", "nonstatio") and spec["n"] > 1:
+        cfg["n_start"] = rng.randint(1, spec["n"] - 1)
+        rp.update(sample_size_omega=3, selected_sample_size_omega=1)
+    need = {"ode": {"nt_start"}, "statio": {"n_start"}, "nonstatio": {"nt_start", "n_start"}}[k]
+    if set(cfg) != need:
+        return spec
+    s = dict(spec)
+    s.pop("n_start_given", None)
+    s.pop("nt_start_given", None)
+    s["rar_cfg"] = dict(cfg, params=rp)
+    return s
+
+
+def gen_program(rng, kinds, max_tasks=2, max_ops=40, nmax=24, float_mode="x64", rar_cfg_prob=0.0):
     ntasks = rng.randint(1, max_tasks)
     tasks = [gen_task(rng, rng.choice(kinds), nmax) for _ in range(ntasks)]
+    if rar_cfg_prob:
+        tasks = [_with_rar_config(rng, t) if (t["kind"] in ("ode", "statio", "nonstatio") and rng.random() < rar_cfg_prob) else t
+                 for t in tasks]
     if ntasks == 2 and tasks[0]["kind"] == "nonstatio" and tasks[0]["cartesian"] and rng.random() < 0.5:
         tw = _twin(rng, tasks[0])
         if tw is not None:
@@ -232,6 +258,23 @@ def obs_tables(n, in_dim, val_dim, params, param_1d=True, off=0.0):
 def build_task(spec):
     k = spec["kind"]
     key = jax.random.PRNGKey(spec["key"])
+    rc = spec.get("rar_cfg")
+    if rc and k == "ode":
+        return jinns.data.DataGeneratorODE(key, spec["nt"], spec["tmin"], spec["tmax"], spec["bt"], method=spec["method"],
+                                           rar_parameters=dict(rc["params"]), nt_start=rc["nt_start"])
+    if rc and k == "statio":
+        return jinns.data.CubicMeshPDEStatio(
+            key=key, n=spec["n"], nb=spec["nb"], omega_batch_size=spec["bo"],
+            omega_border_batch_size=spec["bb"], dim=spec["dim"],
+            min_pts=tuple(spec["min_pts"]), max_pts=tuple(spec["max_pts"]), method=spec["method"],
+            rar_parameters=dict(rc["params"]), n_start=rc["n_start"])
+    if rc and k == "nonstatio":
+        return jinns.data.CubicMeshPDENonStatio(
+            key=key, n=spec["n"], nb=spec["nb"], nt=spec["nt"], omega_batch_size=spec["bo"],
+            omega_border_batch_size=spec["bb"], temporal_batch_size=spec["bt"], dim=spec["dim"],
+            min_pts=tuple(spec["min_pts"]), max_pts=tuple(spec["max_pts"]),
+            tmin=spec["tmin"], tmax=spec["tmax"], method=spec["method"], cartesian_product=spec["cartesian"],
+            rar_parameters=dict(rc["params"]), n_start=rc["n_start"], nt_start=rc["nt_start"])
     if k == "ode":
         return jinns.data.DataGeneratorODE(key, spec["nt"], spec["tmin"], spec["tmax"], spec["bt"], method=spec["method"],
                                            nt_start=spec.get("nt_start_given"))
